@@ -209,7 +209,30 @@ E_CTORCOPY = norm("self.__init__(new_array)")
 E_INPLACE = norm("self._array[first_dimension][second_dimension] = value")
 E_CTORVIEW = norm("self.__init__(self._array)")
 E_FLAT = norm("self._data[iis_1d] = value_1d")
-E_REBUILD = norm("self._array = np.array(partition_list(self._data, self.lengths), dtype='O')")
+# the row view is rebuilt from the flat data by the module-level helper _row_table, whose whole text is pinned below
+# (a 2-d reshape of the data when the rows are equally long -- typed rows -- else a 1-d object array of row slices)
+E_REBUILD = norm("self._array = _row_table(self._data, self.lengths)")
+ROW_TABLE_SRC = norm(
+    "def _row_table(data, lengths):\n"
+    "    lengths = np.asarray(lengths)\n"
+    "    if len(lengths) > 0 and np.all(lengths == lengths[0]):\n"
+    "        return data.reshape((len(lengths), lengths[0]) + data.shape[1:])\n"
+    "    return np.array(partition_list(data, lengths), dtype='O')\n")
+
+
+def row_table_pinned(tree):
+    fns = [n for n in tree.body if isinstance(n, ast.FunctionDef) and n.name == "_row_table"]
+    if len(fns) != 1:
+        raise TranslatorReject("%s: expected exactly one module-level _row_table, found %d" % (REL, len(fns)))
+    fn = fns[0]
+    body = list(fn.body)
+    if body and isinstance(body[0], ast.Expr) and isinstance(body[0].value, ast.Constant) and isinstance(body[0].value.value, str):
+        body = body[1:]
+    bare = ast.FunctionDef(name=fn.name, args=fn.args, body=body, decorator_list=fn.decorator_list, returns=fn.returns,
+                           type_comment=None, lineno=0, col_offset=0)
+    if fn.decorator_list or U(ast.fix_missing_locations(bare)) != ROW_TABLE_SRC:
+        reject(fn, "_row_table differs from the pinned text (rows of the flat data: reshape when equally long, else "
+                   "an object array of partition_list's slices)")
 E_RECURSE = norm("self.__setitem__(iis, value)")
 G_SCALAR_ROW_TEST = "not all((_is_iterable(row) for row in new_array))"
 
@@ -433,8 +456,10 @@ DSRC = {"np.concatenate(array)": "DConcat",
 LSRC = {norm("np.array([len(i) for i in array], dtype=int)"): "LRowLens",
         norm("np.array([len(array)], dtype=int)"): "LSingle",
         norm("np.array([], dtype=int)"): "LEmpty",
-        "np.array(lengths)": "LGivenCopy"}
-RSRC = {norm("np.array(partition_list(self._data, self.lengths), dtype='O')"): "RPartSelf",
+        # dtype=int: the stored lengths are platform integers whatever dtype the caller's array has (unsigned
+        # lengths made `starts` a float array, narrow ones could wrap in any running total)
+        norm("np.array(lengths, dtype=int)"): "LGivenCopy"}
+RSRC = {norm("_row_table(self._data, self.lengths)"): "RPartSelf",
         norm("np.array(partition_list(self._data, lengths), dtype='O')"): "RPartGiven",
         norm("self._data.reshape((1, self.lengths[0]))"): "RReshapeOne",
         norm("self._data.reshape((len(lengths), lengths[0]) + self._data.shape[1:])"): "RReshapeRect",
@@ -651,6 +676,7 @@ def clist(xs):
 def translate(repo):
     tree, _ = parse_file(repo, REL)
     cls = class_node(tree)
+    row_table_pinned(tree)
     no_foreign_writers(cls)
     sl = slots(cls)
     paths, cells = setitem_paths(cls)
